@@ -56,7 +56,8 @@ func genInject(seed uint64, n int, out string) {
 			// non-default webhook configurations / admission variants on the default rendering
 			if !already {
 				mods := []string{"default+pd", "default+sel", "default+pd+sel", "default+path", "default+d", "default+path+d", "native+d", "network+path",
-					"default+http", "default+http+path", "default+pathenv", "default+pathcustom", "default+po", "default+alias", "default+ia", "chart-sel+http", "cni+http+d"}
+					"default+http", "default+http+path", "default+pathenv", "default+pathcustom", "default+po", "default+alias", "default+ia", "chart-sel+http", "cni+http+d",
+					"default+http1b", "network+http"}
 				for mi, m := range mods {
 					if !thorough && (fi+d+mi+int(seed))%len(mods) != 0 {
 						continue
@@ -110,8 +111,9 @@ func genInject(seed uint64, n int, out string) {
 		if r.Chance(1, 12) {
 			s.name += "+ia"
 		}
-		if s.native && strings.Contains(s.name, "+http") {
-			s.name = strings.ReplaceAll(s.name, "+http", "") // NewWebhook wants node clients for native-sidecar detection
+		if strings.Contains(s.name, "+http") {
+			// each +http setting holds a file watcher (an inotify instance): only a fixed handful of combinations
+			s.name = wire.Pick(r, httpSettings)
 		}
 		// namespace of the admission request; the pod's own namespace is set separately (genPod)
 		ns := wire.Pick(r, []string{"default", "default", "", "test-ns", "istio-system"})
@@ -136,6 +138,14 @@ func genInject(seed uint64, n int, out string) {
 			o.Line("kubeinject-pod", base, wrap, wire.Enc(ns), wire.Enc(string(b)))
 			c++
 		}
+		if i%10 == 7 {
+			// the same through kube-inject: the injected WORKLOAD, changed, is handed to kube-inject again
+			base := strings.Split(s.name, "+")[0]
+			o.Line("case", fmt.Sprint(c), "inject")
+			o.Line("redecide-kube", base, wrapKinds[(i/10)%len(wrapKinds)], wire.Enc(ns), wire.Enc(string(b)),
+				wire.Pick(r, []string{"label-false", "annotation-false", "namespace-ignored", "host-network"}))
+			c++
+		}
 		if i%10 == 3 {
 			// decision-only: the really injected pod, changed so that the documented decision is "never", admitted again
 			o.Line("case", fmt.Sprint(c), "inject")
@@ -145,6 +155,8 @@ func genInject(seed uint64, n int, out string) {
 		}
 	}
 }
+
+var httpSettings = []string{"default+http", "default+http+path", "default+http1b", "default+http+pathcustom+d", "chart-sel+http", "cni+http+d", "default+http+pd+sel", "network+http"}
 
 func i64(v int64) *int64 { return &v }
 func bptr(v bool) *bool  { return &v }
@@ -268,6 +280,24 @@ func genPod(r *wire.Rng) *corev1.Pod {
 	if r.Chance(1, 10) {
 		pod.Labels["topology.istio.io/network"] = wire.Pick(r, []string{"n2", "network-a", "n1"})
 	}
+	// labels and fields OUTSIDE the listed inputs of the decision: the decision at the call sites must not move with them
+	if r.Chance(1, 6) {
+		pod.Labels["istio.io/rev"] = wire.Pick(r, []string{"default", "canary", "1-20-0"})
+	}
+	if r.Chance(1, 6) {
+		pod.Labels["istio.io/dataplane-mode"] = wire.Pick(r, []string{"ambient", "ambient", "none", "sidecar"})
+	}
+	if r.Chance(1, 10) {
+		pod.Labels["istio.io/use-waypoint"] = "wp"
+		pod.Labels["gateway.istio.io/managed"] = "istio.io-gateway-controller"
+	}
+	if r.Chance(1, 8) {
+		pod.Spec.HostPID = r.Chance(1, 2)
+		pod.Spec.HostIPC = !pod.Spec.HostPID
+	}
+	if r.Chance(1, 12) {
+		pod.Spec.PriorityClassName = "system-node-critical"
+	}
 	if r.Chance(1, 2) {
 		pod.Labels["version"] = "v1"
 	}
@@ -290,7 +320,17 @@ func genPod(r *wire.Rng) *corev1.Pod {
 		}
 		used[n] = true
 		v := corev1.Volume{Name: n}
-		switch r.Intn(4) {
+		switch r.Intn(8) {
+		case 4:
+			v.Projected = &corev1.ProjectedVolumeSource{Sources: []corev1.VolumeProjection{
+				{ServiceAccountToken: &corev1.ServiceAccountTokenProjection{Path: "token", Audience: "aud"}},
+				{ConfigMap: &corev1.ConfigMapProjection{LocalObjectReference: corev1.LocalObjectReference{Name: "cm-" + n}}}}}
+		case 5:
+			v.PersistentVolumeClaim = &corev1.PersistentVolumeClaimVolumeSource{ClaimName: "pvc-" + n}
+		case 6:
+			v.HostPath = &corev1.HostPathVolumeSource{Path: "/var/" + n}
+		case 7:
+			v.DownwardAPI = &corev1.DownwardAPIVolumeSource{Items: []corev1.DownwardAPIVolumeFile{{Path: "labels", FieldRef: &corev1.ObjectFieldSelector{FieldPath: "metadata.labels"}}}}
 		case 0:
 			v.EmptyDir = &corev1.EmptyDirVolumeSource{}
 		case 1:
@@ -305,13 +345,27 @@ func genPod(r *wire.Rng) *corev1.Pod {
 	// containers
 	ctrNames := []string{"app", "app2", "worker", "logger", "zz-last", "aa-first"}
 	usedC := map[string]bool{}
-	for i, nc := 0, 1+r.Intn(3); i < nc; i++ {
+	nctr := 1 + r.Intn(3)
+	if r.Chance(1, 10) {
+		nctr = 4 + r.Intn(3) // more than three containers
+	}
+	for i, nc := 0, nctr; i < nc; i++ {
 		n := wire.Pick(r, ctrNames)
 		if usedC[n] {
 			continue
 		}
 		usedC[n] = true
 		pod.Spec.Containers = append(pod.Spec.Containers, genContainer(r, n, pod.Spec.Volumes))
+	}
+	// user containers that carry one of the injector's other reserved names
+	if r.Chance(1, 30) {
+		pod.Spec.Containers = append(pod.Spec.Containers, corev1.Container{Name: "enable-core-dump", Image: "busybox", Command: []string{"sh", "-c", "ulimit -c unlimited"}})
+	}
+	if r.Chance(1, 40) {
+		pod.Spec.InitContainers = append(pod.Spec.InitContainers, corev1.Container{Name: wire.Pick(r, []string{"istio-validation", "enable-core-dump"}), Image: "auto"})
+	}
+	if r.Chance(1, 20) {
+		pod.Spec.EphemeralContainers = []corev1.EphemeralContainer{{EphemeralContainerCommon: corev1.EphemeralContainerCommon{Name: "debugger", Image: "busybox", Stdin: true}}}
 	}
 	// a pre-existing istio-proxy container (user customisation of the sidecar)
 	if r.Chance(1, 4) {
@@ -362,6 +416,7 @@ func genPod(r *wire.Rng) *corev1.Pod {
 		}
 		pod.Spec.InitContainers = append(pod.Spec.InitContainers, c)
 	}
+	nativeUserProxy := false
 	if r.Chance(1, 25) && !usedC["istio-proxy-marker"] {
 		// the user's sidecar customisation written as a native sidecar (init container with restartPolicy Always)
 		hasProxy := false
@@ -372,6 +427,9 @@ func genPod(r *wire.Rng) *corev1.Pod {
 			always := corev1.ContainerRestartPolicyAlways
 			pod.Spec.InitContainers = append(pod.Spec.InitContainers, corev1.Container{Name: "istio-proxy", Image: "auto", RestartPolicy: &always,
 				Resources: corev1.ResourceRequirements{Requests: corev1.ResourceList{corev1.ResourceCPU: resource.MustParse("222m")}}})
+			// under a configuration that injects the sidecar as a regular container this would give two containers of one name
+			// (an invalid pod): the pod asks for the native placement itself
+			nativeUserProxy = true
 		}
 	}
 	if r.Chance(1, 20) {
@@ -385,7 +443,31 @@ func genPod(r *wire.Rng) *corev1.Pod {
 	}
 	if r.Chance(1, 5) {
 		ann["inject.istio.io/templates"] = wire.Pick(r, []string{"sidecar", "gateway", "grpc-agent", "grpc-simple", "nonexistent", "custom", "spire",
-			"sidecar,custom", "sidecar, custom", "myalias"})
+			"sidecar,custom", "sidecar, custom", "myalias", "waypoint", "kube-gateway", "agentgateway", "agentgateway-waypoint"})
+	}
+	if r.Chance(1, 12) {
+		ann["kubectl.kubernetes.io/default-container"] = wire.Pick(r, []string{"app", "istio-proxy", "nope"})
+		ann["kubectl.kubernetes.io/default-logs-container"] = "app"
+	}
+	if r.Chance(1, 12) {
+		ann["sidecar.istio.io/capNetBindService"] = wire.Pick(r, []string{"true", "false"})
+		ann["traffic.sidecar.istio.io/includeOutboundPorts"] = "8080,9090"
+	}
+	if r.Chance(1, 12) {
+		ann["k8s.v1.cni.cncf.io/networks"] = wire.Pick(r, []string{"other-net", "other-net, istio-cni", `[{"name":"other-net"}]`})
+	}
+	if r.Chance(1, 10) {
+		ann["resource.opentelemetry.io/service.namespace"] = "shop"
+		if r.Chance(1, 2) {
+			ann["resource.opentelemetry.io/service.version"] = "9.9"
+		}
+		if r.Chance(1, 2) {
+			ann["resource.opentelemetry.io/service.instance.id"] = "inst-1"
+		}
+		pod.Labels["app.kubernetes.io/version"] = "1.0"
+	}
+	if r.Chance(1, 12) {
+		ann["apm.datadoghq.com/env"] = `{"DD_ENV":"prod","DD_SERVICE":"svc"}`
 	}
 	if r.Chance(1, 12) {
 		ann["prometheus.istio.io/scrape-targets"] = wire.Pick(r, []string{":9090/metrics", ":9090/metrics,:9091/other", "8080"})
@@ -398,6 +480,10 @@ func genPod(r *wire.Rng) *corev1.Pod {
 	}
 	if r.Chance(1, 6) {
 		ann["sidecar.istio.io/nativeSidecar"] = wire.Pick(r, []string{"true", "false"})
+	}
+	if nativeUserProxy {
+		ann["sidecar.istio.io/nativeSidecar"] = "true"
+		delete(ann, "inject.istio.io/templates")
 	}
 	if r.Chance(1, 8) {
 		ann["sidecar.istio.io/interceptionMode"] = wire.Pick(r, []string{"TPROXY", "REDIRECT", "NONE"})
@@ -481,6 +567,8 @@ func genPod(r *wire.Rng) *corev1.Pod {
 			`{"containers":[{"name":"istio-proxy","resources":{"requests":{"cpu":"777m"}}}]}`,
 			`{"containers":[{"name":"istio-proxy","image":"auto","env":[{"name":"OV","value":"1"}]}]}`,
 			`{"initContainers":[{"name":"istio-init","resources":{"limits":{"cpu":"1"}}}]}`,
+			`{"containers":[{"name":"istio-proxy","ports":[{"name":"ov-port","containerPort":15098}]}]}`,
+			`{"containers":[{"name":"istio-proxy","readinessProbe":{"httpGet":{"path":"/healthz/ready","port":15021},"periodSeconds":4}}]}`,
 			`{"containers":[{"name":"istio-proxy","securityContext":{"runAsUser":1234,"runAsGroup":4321}}],"initContainers":[{"name":"istio-init","image":"auto"}]}`,
 		})
 	}
